@@ -11,7 +11,7 @@ MODEL = "s3s_policy::model::"
 
 
 def rule_r1(chk, db):
-    b = db.body(P + "PatternSet::match_pattern")
+    b = inline.inlined(db, db.body(P + "PatternSet::match_pattern"))
     if b is None:
         raise AnchorMissing("match_pattern not found")
     consts = set()
@@ -44,7 +44,11 @@ def rule_r1(chk, db):
             if p is not None and p["proj"] and not is_u8:
                 # `match slice.get(i).copied() { Some(b'*') => .. }`: a switch on the payload of an Option<u8>
                 names = [e.get("n") for e in p["proj"] if isinstance(e, dict)]
-                is_u8 = names[:2] == ["Some", "0"] and b.locals[p["l"]].replace(" ", "") in ("core::option::Option<u8>", "core::option::Option<&u8>")
+                lty = b.locals[p["l"]].replace(" ", "")
+                is_u8 = names[:2] == ["Some", "0"] and lty in ("core::option::Option<u8>", "core::option::Option<&u8>")
+                # `match (pattern.get(i).copied(), input.get(j).copied()) { (Some(b'*'), _) => .. }`: the payload of a tuple field
+                if not is_u8 and names[-2:] == ["Some", "0"] and len(names) == 3 and lty.startswith("(") and "core::option::Option<u8>" in lty:
+                    is_u8 = True
             if p is not None and not p["proj"] and not is_u8:
                 df = flow.single_def(b, p["l"])
                 if df and df["kind"] == "assign" and df["rv"]["k"] == "use":
@@ -166,7 +170,7 @@ def rule_r3(chk, db):
 
 def rule_r4(chk, db):
     """cursor advances and index sites are guarded by `idx < len` on the same cursor"""
-    b = db.body(P + "PatternSet::match_pattern")
+    b = inline.inlined(db, db.body(P + "PatternSet::match_pattern"))
     if b is None:
         raise AnchorMissing("match_pattern not found")
 
@@ -286,6 +290,20 @@ def rule_r5(chk, db):
                 b.impl_self.split("<")[0] == MODEL + ty and short(b.name) == "serialize"]
         vis = [b for b in db.bodies.values() if b.crate == "s3s_policy" and b.kind == "AssocFn" and b.impl_trait == "serde::de::Visitor" and not b.derived and
                (b.impl_self.startswith("<" + MODEL + ty + "<") or b.impl_self.startswith("<" + MODEL + ty + " as"))]
+        if not vis:
+            # the visitor may be a module-level type: the one the hand-written Deserialize impl hands to `deserialize_*`
+            des = [b for b in db.bodies.values() if b.crate == "s3s_policy" and b.kind == "AssocFn" and b.impl_trait.startswith("serde::de::Deserialize") and
+                   not b.derived and b.impl_self.split("<")[0] == MODEL + ty and short(b.name) == "deserialize"]
+            vtypes = set()
+            for d in des:
+                for bi, t in d.calls():
+                    if short(callee_def(t)).startswith("deserialize_") and "serde::de::Deserializer" in callee_def(t):
+                        for a in t["args"]:
+                            pl = flow.op_place(a)
+                            if pl is not None and pl["l"] < len(d.locals) and d.locals[pl["l"]].startswith("s3s_policy::"):
+                                vtypes.add(d.locals[pl["l"]].split("<")[0])
+            vis = [b for b in db.bodies.values() if b.crate == "s3s_policy" and b.kind == "AssocFn" and b.impl_trait == "serde::de::Visitor" and not b.derived and
+                   b.impl_self.split("<")[0] in vtypes]
         if len(sers) != 1:
             chk.fail("R5", ty + ".serializer", "", "hand-written Serialize impl for %s: %d bodies" % (ty, len(sers)))
             continue
